@@ -1,6 +1,108 @@
 -------------------------------- MODULE JC13 --------------------------------
-(* C13 — contract of the recorded events of this property (stub).           *)
+(* C13 — signed integers behave as two's-complement mathematical integers.  *)
+(*                                                                          *)
+(* Signed operands are logged as bit patterns (a, b, r) with their widths   *)
+(* in bits (ab, bb, rb) and read with SVal; bu = 1 marks an unsigned right  *)
+(* operand.  m is the reporting mode the documentation gives the form:      *)
+(*   "wrap"   r = true result mod 2^rb (two's complement)                   *)
+(*   "ovf"    wrapped r and flag o = 1 iff the true result is not in        *)
+(*            [MIN, MAX] at rb bits                                         *)
+(*   "chk"    none iff not in [MIN, MAX], otherwise the exact r             *)
+(*   "op"     operator: panic iff not in [MIN, MAX], otherwise the exact r  *)
+(*   "exact"  widening forms: the result always fits and is exact           *)
+(*   "split"  (lo, hi, neg): lo + hi*2^lb = |a|*|b|, neg = sign(a)#sign(b)  *)
+(*   "sat"    squares only: min(a^2, 2^ab - 1)                              *)
+(*   "wrapif" conditional wrapping negation, input flag c                   *)
+(* Event classes: add sub neg mul square fromabs abssign pred resize        *)
+(* fromprim.  an / bn = 1: that Checked operand was already none.           *)
 EXTENDS BigNat
 
-JudgeC13(e, rg) == FALSE
+LOCAL Has(e, f) == f \in DOMAIN e
+LOCAL Flag(b) == IF b THEN 1 ELSE 0
+
+LOCAL OpA(e) == SVal(e.a, e.ab)
+LOCAL OpB(e) == IF Has(e, "bu") /\ e.bu = 1 THEN [neg |-> FALSE, mag |-> e.b] ELSE SVal(e.b, e.bb)
+
+(* the recorded outcome against the true (mathematical) result z, reported at rb bits *)
+LOCAL Outcome(e, z, rb) ==
+  IF Has(e, "an") \/ Has(e, "bn") THEN e.k = "none"          \* a none Checked operand stays none
+  ELSE CASE e.m = "wrap"  -> e.k = "ok" /\ e.r = SEnc(z, rb)
+         [] e.m = "ovf"   -> e.k = "ok" /\ e.r = SEnc(z, rb) /\ e.o = Flag(~SFits(z, rb))
+         [] e.m = "chk"   -> IF SFits(z, rb) THEN e.k = "ok" /\ e.r = SEnc(z, rb) ELSE e.k = "none"
+         [] e.m = "op"    -> IF SFits(z, rb) THEN e.k = "ok" /\ e.r = SEnc(z, rb) ELSE e.k = "panic"
+         [] e.m = "exact" -> e.k = "ok" /\ SFits(z, rb) /\ e.r = SEnc(z, rb)
+         [] OTHER -> FALSE
+
+LOCAL JudgeAdd(e) == Outcome(e, SAdd(OpA(e), OpB(e)), e.rb)
+LOCAL JudgeSub(e) == Outcome(e, SSub(OpA(e), OpB(e)), e.rb)
+
+LOCAL JudgeNeg(e) ==
+  IF e.m = "wrapif"
+    THEN e.k = "ok" /\ e.r = SEnc(IF e.c = 1 THEN SNegate(OpA(e)) ELSE OpA(e), e.rb)
+    ELSE Outcome(e, SNegate(OpA(e)), e.rb)
+
+LOCAL JudgeMul(e) ==
+  LET x == OpA(e)
+      y == OpB(e)
+      z == SMul(x, y)
+  IN IF e.m = "split"
+       THEN /\ e.k = "ok"
+            /\ Fits(e.lo, e.lb) /\ Fits(e.hi, e.hb)
+            /\ Add(e.lo, Shl(e.hi, e.lb)) = z.mag
+            \* "negate" = the signs oppose; for a zero magnitude the doc allows a truthy flag, and a
+            \* falsy one denotes the same value
+            /\ (e.neg = Flag(x.neg # y.neg) \/ (z.mag = Zero /\ e.neg = 0))
+       ELSE Outcome(e, z, e.rb)
+
+(* squares are returned as unsigned integers: the range is [0, 2^ab) *)
+LOCAL JudgeSquare(e) ==
+  LET s == Mul(OpA(e).mag, OpA(e).mag)
+  IN CASE e.m = "exact" -> e.k = "ok" /\ Fits(s, e.rb) /\ e.r = s
+       [] e.m = "chk"   -> IF Fits(s, e.ab) THEN e.k = "ok" /\ e.r = s ELSE e.k = "none"
+       [] e.m = "wrap"  -> e.k = "ok" /\ e.r = Mod2k(s, e.ab)
+       [] e.m = "sat"   -> e.k = "ok" /\ e.r = (IF Fits(s, e.ab) THEN s ELSE Max2k(e.ab))
+       [] OTHER -> FALSE
+
+(* reconstruction from (magnitude, sign); negative zero is zero *)
+LOCAL JudgeFromAbs(e) == Outcome(e, SMk(e.sg = 1, e.mag), e.rb)
+
+LOCAL JudgeAbsSign(e) ==
+  /\ e.k = "ok"
+  /\ e.am = OpA(e).mag
+  /\ Has(e, "as") => e.as = Flag(OpA(e).neg)
+
+LOCAL JudgePred(e) ==
+  LET x == OpA(e)
+  IN /\ e.k = "ok"
+     /\ e.v = CASE e.w = "neg" -> Flag(x.neg)
+                [] e.w = "pos" -> Flag(~x.neg /\ x.mag # Zero)
+                [] e.w = "min" -> Flag(x.neg /\ x.mag = Pow2(e.ab - 1))
+                [] e.w = "max" -> Flag(~x.neg /\ x.mag = Max2k(e.ab - 1))
+                [] OTHER -> 2
+
+(* widening keeps the value (sign extension); narrowing keeps the low rb bits *)
+LOCAL JudgeResize(e) ==
+  /\ e.k = "ok"
+  /\ e.r = (IF e.rb >= e.ab THEN SEnc(OpA(e), e.rb) ELSE Mod2k(e.a, e.rb))
+
+(* From<primitive>: exact when the target is at least as wide as the primitive.  A narrower target *)
+(* (Int<1> from i128) is undocumented: the trait form debug_asserts, the const form truncates —     *)
+(* tolerated: a panic, or the value modulo 2^rb (exact whenever it fits).                          *)
+LOCAL JudgeFromPrim(e) ==
+  LET z == SVal(e.v, e.pb)
+  IN IF e.rb >= e.pb THEN e.k = "ok" /\ e.r = SEnc(z, e.rb)
+     ELSE e.k = "panic" \/ (e.k = "ok" /\ e.r = SEnc(z, e.rb))
+
+JudgeC13(e, rg) ==
+  CASE e.op = "add"      -> JudgeAdd(e)
+    [] e.op = "sub"      -> JudgeSub(e)
+    [] e.op = "neg"      -> JudgeNeg(e)
+    [] e.op = "mul"      -> JudgeMul(e)
+    [] e.op = "square"   -> JudgeSquare(e)
+    [] e.op = "fromabs"  -> JudgeFromAbs(e)
+    [] e.op = "abssign"  -> JudgeAbsSign(e)
+    [] e.op = "pred"     -> JudgePred(e)
+    [] e.op = "resize"   -> JudgeResize(e)
+    [] e.op = "fromprim" -> JudgeFromPrim(e)
+    [] OTHER -> FALSE
 =============================================================================
